@@ -8,7 +8,7 @@ from pathlib import Path
 HERE = Path(__file__).resolve().parent.parent
 sys.path.insert(0, str(HERE / 'tools'))
 import eval_seeded
-PROPS = eval_seeded.PROPS
+PROPS = os.environ.get('ONLY_PROPS', '').split() or eval_seeded.PROPS
 
 def evaluate(c: Path) -> dict:
     d = eval_seeded.scratch_copy()
@@ -30,7 +30,7 @@ def evaluate(c: Path) -> dict:
 
 if __name__ == '__main__':
     args = sys.argv[1:]
-    cands = sorted(p for p in (HERE / 'refactors').iterdir() if p.is_dir()) if args == ['--kept'] else [Path(a) for a in args]
+    cands = sorted(p for p in (HERE / 'refactors').iterdir() if p.is_dir()) if args == ['--kept'] else [Path(a).resolve() for a in args]
     with cf.ThreadPoolExecutor(max_workers=8) as ex:
         for r in ex.map(evaluate, cands):
             tag = 'FALSE-ALARM' if r.get('violations') else ('inconclusive' if r.get('inconclusive') else 'silent')
